@@ -82,8 +82,8 @@ F3B == { None, SExpr(Asg("f", L2)), SVar("f", TRUE, Lit(IntV(6))) }
 F3C == { None, SPrint(Id("f")), SExpr(Asg("f", Bin("+", Id("f"), Lit(IntV(10))))), SExpr(Asg("g", Id("f"))), SExpr(Asg("f", Lit(IntV(3)))) }
 F3D == { None, SPrint(Id("f")), SExpr(Asg("g", Id("f"))) }
 Fields3 == /\ Scope = "fields3" /\ phase = 0
-           /\ \E a \in F3A, b \in F3B, c \in F3C, d \in F3D, e \in F3D :
-                prog' = << SDef("a", "", Opt(a) \o << SDef("b", "", Opt(b) \o (IF c = None THEN <<>> ELSE << SDef("c", "", <<c>>) >>) \o Opt(d)) >> \o Opt(e)) >>
+           /\ \E a \in F3A, b \in F3B, c \in F3C, d \in F3D, e \in F3D, ct \in {"c", "f"} :       \* ct = "f": the innermost block is itself of a type named like the field (still open while read)
+                prog' = << SDef("a", "", Opt(a) \o << SDef("b", "", Opt(b) \o (IF c = None THEN <<>> ELSE << SDef(ct, "", <<c>>) >>) \o Opt(d)) >> \o Opt(e)) >>
            /\ phase' = 1 /\ UNCHANGED <<body, last>>
 Next == Fields3 \/ ScFirst \/ ScItem \/ ScBodyDone \/ ScLast \/ BlItem \/ BiItem \/ BmItem
 Spec == Init /\ [][Next]_vars
